@@ -325,6 +325,12 @@ def make_handler(rt):
                     raise Unsupported('%s: scalar %s not by reference' % (
                         rt.name, nm))
             else:
+                from engine.cvc.exec import StrV
+                if isinstance(v, StrV) and len(v.s) >= 1:
+                    # a flag passed as a string literal ("L", "N"): the
+                    # routine reads its first character
+                    p[nm] = z3.IntVal(ord(v.s[0]))
+                    continue
                 if not isinstance(v, PtrV):
                     raise Unsupported('%s: %s not by reference' % (
                         rt.name, nm))
